@@ -53,6 +53,55 @@ class Result:
 _ENGINE = None
 
 
+class RunHang(BaseException):
+	"""Raised into the thread that executes a run when the whole run exceeds the wall limit."""
+
+
+RUN_WALL_S = 3 * float(os.environ.get("VERIF_HANG_S", "20"))
+
+
+def guarded_execute(engine, plan, prop, choices=None):
+	"""engine.execute under a wall-clock watchdog: code under test that loops for ever in the
+	calling thread (engines without simulated threads run it there) ends the run with a
+	`<prop>.hang` violation instead of hanging the worker.  Simulated threads have their own,
+	shorter watchdog in the kernel."""
+	import ctypes
+	import threading
+	import traceback
+	me = threading.get_ident()
+	done = threading.Event()
+	state = {}
+
+	def watchdog():
+		if done.wait(RUN_WALL_S):
+			return
+		try:
+			fr = sys._current_frames().get(me)
+			state["where"] = ["%s:%s" % (f.filename.rsplit("/", 1)[-1], f.name) for f in traceback.extract_stack(fr)[-6:]]
+		except Exception:
+			state["where"] = []
+		if not done.is_set():
+			ctypes.pythonapi.PyThreadState_SetAsyncExc(ctypes.c_ulong(me), ctypes.py_object(RunHang))
+
+	w = threading.Thread(target=watchdog, name="vp-run-watchdog", daemon=True)
+	w._vp_real = True
+	from sim.kernel import _THREAD_START
+	_THREAD_START(w)
+	try:
+		try:
+			return engine.execute(plan, prop, choices=choices) if choices is not None else engine.execute(plan, prop)
+		finally:
+			done.set()
+	except RunHang:
+		res = Result()
+		res.violations = [{"clause": "%s.hang" % prop, "owners": [prop], "detail": {"exc": "Hang",
+			"msg": "the run did not end within %g s of wall time (endless loop in the code under test)" % RUN_WALL_S,
+			"where": state.get("where", [])[-4:]}}]
+		res.digest = "hang"
+		res.signature = "hang"
+		return res
+
+
 def _worker_chunk(args):
 	prop, tier, seeds, want_samples = args
 	engine = _ENGINE
@@ -61,8 +110,9 @@ def _worker_chunk(args):
 	try:
 		for seed in seeds:
 			plan = engine.generate(seed, prop, tier)
-			res = engine.execute(plan, prop)
+			res = guarded_execute(engine, plan, prop)
 			owned = res.owned(prop)
+			owned.sort(key=lambda v: not _is_hang(v))  # an endless loop explains whatever else went wrong
 			rec = {
 				"seed": seed, "digest": res.digest, "sig": res.signature,
 				"nontrivial": res.nontrivial, "faults": res.faults, "probes": res.probes,
@@ -76,9 +126,16 @@ def _worker_chunk(args):
 			elif want_samples and len([r for r in out if "plan" in r]) < 1:
 				rec["plan"] = plan
 			out.append(rec)
+			if owned and _is_hang(owned[0]):
+				break  # every further run of this chunk may hang as long again
 	finally:
 		faulthandler.cancel_dump_traceback_later()
 	return out
+
+
+def _is_hang(violation):
+	d = violation.get("detail")
+	return isinstance(d, dict) and d.get("exc") == "Hang"
 
 
 # ------------------------------------------------------------------ minimisation ------
@@ -254,6 +311,8 @@ def run_check(engine, prop, tier, level="exploration", runs_quick=400, budget_qu
 	if recs and not harness_errors:
 		step = max(1, len(recs) // max(3, len(recs) // 50))
 		for r in recs[::step][:60]:
+			if r["violation"] and _is_hang(r["violation"]):
+				continue
 			try:
 				plan = engine.generate(r["seed"], prop, tier)
 				res = engine.execute(plan, prop)
@@ -284,6 +343,8 @@ def run_check(engine, prop, tier, level="exploration", runs_quick=400, budget_qu
 				known_hit[sig] = k
 				continue
 			try:
+				if _is_hang(r["violation"]):  # every attempt costs the full watchdog time: reported as found
+					raise RuntimeError("not minimised")
 				plan, choices, viol, tries = minimise(engine, prop, r["plan"], r.get("choices"),
 					r["violation"], budget_s=float(os.environ.get("VERIF_MINIMISE_S", "90")))
 			except Exception as e:
@@ -294,7 +355,7 @@ def run_check(engine, prop, tier, level="exploration", runs_quick=400, budget_qu
 				continue
 			path = os.path.join(REPLAY_DIR, "%s-%d.json" % (prop, r["seed"]))
 			try:  # the digest a replay must reproduce
-				hd = engine.execute(plan, prop, choices=choices).digest
+				hd = "hang" if _is_hang(viol) else engine.execute(plan, prop, choices=choices).digest
 			except Exception:
 				hd = None
 			with open(path, "w") as f:
@@ -392,7 +453,7 @@ def replay(engine, prop, path):
 		rp = json.load(f)
 	engine.setup()
 	known = load_known()
-	res = engine.execute(rp["plan"], prop, choices=rp.get("choices"))
+	res = guarded_execute(engine, rp["plan"], prop, choices=rp.get("choices"))
 	ow = res.owned(prop)
 	want = rp["violation"]["clause"]
 	same = [v for v in ow if v["clause"] == want]
